@@ -7,7 +7,8 @@
 // column order, a lone `input` column prints just the line (text values free of delimiter, quote and line-break characters).
 // Grid: OutputPrinter::print driven directly with result tables built from 30 values (64-bit extremes, REAL edge values,
 // TEXT with quotes / delimiters / control / non-ASCII characters, nested and long arrays, NULLs) in 1..4 columns and 0..3
-// rows per table, several tables per printer (an empty table first), the three formats, interactive and single-result mode;
+// rows per table, several tables per printer (an empty table first), the three formats (CSV with the delimiters ; , tab and ||; JSON also with
+// column names that hold quotes, backslashes, control and non-ASCII characters), interactive and single-result mode;
 // plus the same values through a real query.
 // Also: intervals from 1 second to 1000 hours in the three formats (hours are not wrapped at a day).
 include!("verif_grid_common.rs");
@@ -69,8 +70,10 @@ fn verif_grid() {
         let value_tables: Vec<Vec<Vec<Value>>> = tables.iter().map(|t| t.iter().map(|r| r.iter().map(|c| c.0.clone()).collect()).collect()).collect();
         let all_rows: Vec<Vec<(Value, J, Option<&'static str>)>> = tables.iter().flat_map(|t| t.iter().cloned()).collect();
         // ---- JSON
+        // (column names are text too: in JSON any character of a name is escaped like any other text)
+        let json_names: Vec<String> = (0..*w).map(|c| [["alpha", "b", "input", "d_4"], ["a \"quoted\" name", "back\\slash", "tab\there", "uni\u{e9}\u{1f600}"], ["new\nline", "p0", "COUNT(*)", "a.b"]][start % 3][c].to_owned()).collect();
         for single in [true, false] {
-            let (names2, vt, rows2) = (names.clone(), value_tables.clone(), all_rows.clone());
+            let (names2, vt, rows2) = (json_names.clone(), value_tables.clone(), all_rows.clone());
             let multi: Vec<bool> = tables.iter().map(|t| t.len() > 1).collect();
             g.case(&format!("json-s{}-v{}-{}", si, start, single), move || {
                 let printed = print_tables(OutputFormat::Json, single, &names2, &vt);
@@ -92,15 +95,16 @@ fn verif_grid() {
             });
         }
         // ---- CSV and text: only rows whose text values are free of delimiter, quote and line-break characters
-        let clean = all_rows.iter().all(|r| r.iter().all(|c| match &c.0 { Value::String(s) => !s.contains(|ch: char| ch == ';' || ch == ',' || ch == '"' || ch == '\'' || ch == '\n' || ch == '\r' || ch == ':'), Value::Array(..) => false, _ => true }));
+        let clean = all_rows.iter().all(|r| r.iter().all(|c| match &c.0 { Value::String(s) => !s.contains(|ch: char| ch == ';' || ch == ',' || ch == '\t' || ch == '|' || ch == '"' || ch == '\'' || ch == '\n' || ch == '\r' || ch == ':'), Value::Array(..) => false, _ => true }));
         if clean {
             let (names2, vt, nrows) = (names.clone(), value_tables.clone(), all_rows.len());
+            let delimiter = [";", ",", "\t", "||"][(start + si) % 4];
             g.case(&format!("csv-s{}-v{}", si, start), move || {
-                let printed = print_tables(OutputFormat::CSV(";".to_owned()), true, &names2, &vt);
-                if nrows == 0 { return if printed.is_empty() || printed == vec![names2.join(";")] { Ok(()) } else { Err(format!("no rows, printed {:?}", printed)) }; }
+                let printed = print_tables(OutputFormat::CSV(delimiter.to_owned()), true, &names2, &vt);
+                if nrows == 0 { return if printed.is_empty() || printed == vec![names2.join(delimiter)] { Ok(()) } else { Err(format!("no rows, printed {:?}", printed)) }; }
                 if printed.len() != nrows + 1 { return Err(format!("{} rows: one header and {} records expected, printed {:?}", nrows, nrows, printed)); }
-                if printed[0] != names2.join(";") { return Err(format!("the first printed line is {:?}; one header line with the column names {:?} precedes the first record", printed[0], names2)); }
-                for rec in &printed[1..] { if rec.split(';').count() != names2.len() { return Err(format!("record {:?} does not have one field per column ({})", rec, names2.len())); } }
+                if printed[0] != names2.join(delimiter) { return Err(format!("the first printed line is {:?}; one header line with the column names {:?} precedes the first record", printed[0], names2)); }
+                for rec in &printed[1..] { if rec.split(delimiter).count() != names2.len() { return Err(format!("record {:?} does not have one field per column ({})", rec, names2.len())); } }
                 Ok(())
             });
             let (names2, vt, rows2) = (names.clone(), value_tables.clone(), all_rows.clone());
